@@ -59,7 +59,7 @@ STEP_K = 400
 UNIT_BASE = 2000
 UNIT_PER_COEFF = 2
 
-N_RANDOM = {"quick": 36000, "thorough": 800000}
+N_RANDOM = {"quick": 36000, "thorough": 480000}
 N_SHARDS = {"quick": 16, "thorough": 64}
 
 _MON = {"ctx": None, "guard": None, "rebinds": {}, "sc": None, "coeffs": 0, "iwd_calls": 0, "parse_infos": 0,
